@@ -1,6 +1,6 @@
 (* C05 — Resolution is reported promptly and only when true; flapping alerts are not lost.
    Model: Model/Group.v. Only statements; proofs in Proofs/GroupProofs.v. *)
-From AM Require Import Base.Prelude Model.Group Proofs.GroupProofs.
+From AM Require Import Base.Prelude Model.Group Proofs.GroupProofs Proofs.GroupLiveness.
 
 (* With send_resolved, once a told-firing alert (listed firing and not resolved by the log entry) is resolved and
    unsuppressed at a flush, that flush's chain for the integration sends, and what it sends is the whole
@@ -106,6 +106,20 @@ Theorem c05_failed_flush_keeps_everything cfg s t s' :
             exists g', s_group s' = Some g' /\ gr_alerts g' = gr_alerts g /\ gr_flight g' = None /\ gr_deadline g' = gr_deadline g.
 Proof. exact (failed_flush_keeps_everything cfg s t s'). Qed.
 
+(* ---- "the next flush reports it", composed: for ANY accepted run (no log GC / gossip merge in it) from a state in
+   which the group is idle and holds x with its end time passed, the log entry of integration i (send_resolved on)
+   lists x as firing and not yet as resolved, x is not suppressed and nobody re-fires it: once the clock has passed the
+   armed deadline + flush timeout, the outputs contain a successful notification of i whose batch lists x as RESOLVED
+   — provided i accepts deliveries in that window ([fair]). ---- *)
+Theorem c05_resolution_is_reported_by_the_next_flush cfg x i T h s s' outs g M en :
+  run cfg s h = Some (s', outs) -> fair x i T h -> no_log_ops h -> no_update_of_x x h ->
+  s_group s = Some g -> gr_flight g = None -> has_x_resolved x s g ->
+  s_nflog s !! i = Some (Some en) -> In x (n_firing en) -> ~ In x (n_resolved en) ->
+  (forall ic, g_ints cfg !! i = Some ic -> i_send_resolved ic = true) ->
+  Z.max (gr_deadline g) (s_clock s) <= M -> (i < length (g_ints cfg))%nat -> 0 <= g_timeout cfg ->
+  M + g_timeout cfg < s_clock s' -> notified_as x i true outs.
+Proof. exact (idle_phase_resolved cfg x i T h s s' outs g M en). Qed.
+
 (* ---- non-vacuity: fire, notify, resolve, slow delivery of the resolved notification, re-fire during delivery ---- *)
 Definition ex_cfg := mkG 30 300 100000 310 1000000 [mkI true].
 Definition ex_run : list (Z * ev) :=
@@ -125,6 +139,28 @@ Example c05_nonvacuous :
   end.
 Proof. vm_compute. reflexivity. Qed.
 
+(* non-vacuity of [c05_resolution_is_reported_by_the_next_flush]: after the resolve at 100 the group is idle with
+   deadline 330, the entry of 30 lists alert 1 as firing; the flush at 330 reports it resolved *)
+Example c05_resolution_bound_nonvacuous :
+  let pre := firstn 6 ex_run in
+  let post := [(330, ETick 330 []); (330, EDedup 0); (333, EAttempt 0 OK); (333, EFlushEnd); (700, EEnd)] in
+  exists s outs0 s' outs en g,
+    run ex_cfg (init ex_cfg 0) pre = Some (s, outs0) /\ run ex_cfg s post = Some (s', outs) /\
+    s_group s = Some g /\ gr_flight g = None /\ gr_deadline g = 330 /\ has_x_resolved 1 s g /\
+    s_nflog s !! 0%nat = Some (Some en) /\ In 1 (n_firing en) /\ ~ In 1 (n_resolved en) /\
+    330 + g_timeout ex_cfg < s_clock s' /\ notified_as 1 0%nat true outs.
+Proof.
+  cbv zeta. do 6 eexists.
+  split; [vm_compute; reflexivity|]. split; [vm_compute; reflexivity|].
+  split; [vm_compute; reflexivity|]. split; [reflexivity|]. split; [reflexivity|].
+  split; [exists (mkA 1 0 100 100); vm_compute; repeat split; auto; discriminate|].
+  split; [vm_compute; reflexivity|]. split; [vm_compute; auto|]. split; [vm_compute; tauto|].
+  split; [vm_compute; reflexivity|].
+  exists RAllResolved, [mkF 1 true 100], (mkF 1 true 100). vm_compute. auto.
+Qed.
+
+
 Print Assumptions c05_resolved_reported_at_next_flush.
 Print Assumptions c05_resolved_only_when_true.
 Print Assumptions c05_refire_during_delivery_is_kept.
+Print Assumptions c05_resolution_is_reported_by_the_next_flush.
